@@ -496,7 +496,7 @@ theorem serverIdle_unsegmented {now : Nat} {di : Option DeviceInfo} {k : Key} {b
     {m : Nat} (hseg : a.seg = false) (hm : decodeMaxApdu a.maxResp = some m) :
     serverIdle cfg now di k b a =
       (some { b with sra := a.sa, maxApdu := announcedMax di m, maxSegs := decodeMaxSegs a.maxSegs,
-                     st := .awaitResp, timer := stateTimer now cfg.appTimeout },
+                     announced := m, st := .awaitResp, timer := stateTimer now cfg.appTimeout },
        [.indicate k.peer a]) := by
   simp [serverIdle, hm, hseg]
 
@@ -516,7 +516,7 @@ theorem fresh_request_step {s : Sap} (p : Peer) (a : Apdu) {m : Nat}
              { newBody cfg s p with
                  sra := a.sa,
                  maxApdu := announcedMax (promote a.sa (heldDI s ⟨p, a.invokeId⟩ (newBody cfg s p))) m,
-                 maxSegs := decodeMaxSegs a.maxSegs, st := .awaitResp,
+                 maxSegs := decodeMaxSegs a.maxSegs, announced := m, st := .awaitResp,
                  timer := stateTimer s.now cfg.appTimeout }] },
        [.indicate p a]) := by
     rw [step_frame]
